@@ -35,7 +35,10 @@ import (
 // REAL quotaTopology (ValidAddQuota / ValidUpdateQuota / ValidDeleteQuota).  After every request the
 // verdict and the recorded topology (quotaInfoMap, quotaHierarchyInfo, namespaceToQuotaMap) are
 // emitted as canonical integer observations, and the property oracle (an independent evaluation of
-// well-formedness on that dump) is run.
+// well-formedness on that dump) is run.  Round 2: the informer event of every ADMITTED request is delivered to the real
+// handlers (OnQuotaAdd / OnQuotaUpdate / OnQuotaDelete) right after the admission (op line `echo 1`; Model/C15Inf.lean),
+// two replicas wired through the real NewQuotaInformer share one simulated API server (TestVerifC15Replicas*), and the
+// oracle also judges every admission verdict against its own bookkeeping of admitted objects (c15Judge).
 
 const c15Dims = 3
 
@@ -693,10 +696,11 @@ func c15SameCompared(a, b *v1alpha1.ElasticQuota) bool {
 }
 
 // c15Book: the oracle's own bookkeeping besides the store of admitted objects.
-//   taint[n]: the last admitted request for n that changed a compared field (or created n), or a later label-only one,
-//             carried allow-force-update / is-root — n is exempt from the min-sum clause as a parent and as a child.
-//   flagsKept: no label-only update (compared fields unchanged) changed a bypass label so far = hypothesis `FlagsKept`
-//             of the Lean echo / replica theorems.
+//
+//	taint[n]: the last admitted request for n that changed a compared field (or created n), or a later label-only one,
+//	          carried allow-force-update / is-root — n is exempt from the min-sum clause as a parent and as a child.
+//	flagsKept: no label-only update (compared fields unchanged) changed a bypass label so far = hypothesis `FlagsKept`
+//	          of the Lean echo / replica theorems.
 type c15Book struct {
 	taint     map[int]bool
 	flagsKept bool
@@ -1186,7 +1190,8 @@ func TestVerifC15(t *testing.T) {
 	}
 	h.Close("one history of 4-16 (thorough: up to 40) create/update/delete requests over <=6 names (incl. system/default), parents incl. self/descendants/unknown, " +
 		"is-parent flips, tree ids, namespaces, min/max over 3 dimensions (absent/0/small, rare negative / min>max / key mismatch), force/is-root labels in 1/8 histories, " +
-		"pod environment (incl. failing List) and raw spelling of labels/annotations/nil maps per request; non-trivial = >=3 accepted requests and final depth >=2; distinct by op lines")
+		"pod environment (incl. failing List) and raw spelling of labels/annotations/nil maps per request; namespace-list edits that keep a namespace ([a,b]->[b,c], reorder, extend, shrink); " +
+		"in 7/8 of the histories the informer event of every admitted request (typed / unstructured / tombstone by value) is delivered to the real handlers right after; non-trivial = >=3 accepted requests and final depth >=2; distinct by op lines")
 }
 
 // TestVerifC15Deep: the same history generator biased towards deep trees with full parents (min-sum, keys and tree-id
@@ -2018,12 +2023,18 @@ type c15Replica struct {
 	inf *c15Informer
 }
 
+var c15ReplicaScheme *runtime.Scheme // the scheme of the replicas' fake caches (ElasticQuota registered, as in koord-manager's options.Scheme)
+
 func c15NewReplica(registrations int) (*c15Replica, error) {
 	rp := &c15Replica{qt: NewQuotaTopology(&c15Client{}), inf: &c15Informer{FakeInformer: &controllertest.FakeInformer{Synced: true}}}
-	sch := runtime.NewScheme()
-	if err := v1alpha1.AddToScheme(sch); err != nil {
-		return nil, err
+	if c15ReplicaScheme == nil {
+		sch := runtime.NewScheme()
+		if err := v1alpha1.AddToScheme(sch); err != nil {
+			return nil, err
+		}
+		c15ReplicaScheme = sch
 	}
+	sch := c15ReplicaScheme
 	gvk := v1alpha1.SchemeGroupVersion.WithKind("ElasticQuota")
 	fc := &informertest.FakeInformers{Scheme: sch, InformersByGVK: map[schema.GroupVersionKind]toolscache.SharedIndexInformer{gvk: rp.inf}}
 	for i := 0; i < registrations; i++ {
@@ -2394,4 +2405,203 @@ func TestVerifC15Tombstone(t *testing.T) {
 		h.End()
 	}
 	h.Close("tombstone exhibit (VERIF_C15_TOMBSTONE=prod only): delete missed by a replica and delivered as DeletedFinalStateUnknown holding the typed / the unstructured object")
+}
+
+// ---- exhaustive small-scope stream for the informer glue (thorough tier) ----
+//
+// Request alphabet (2 replicas x 2 names {3,4} x ({create, update} x is-parent {0,1} x parent {root, the other name} x
+// namespaces {[], [1], [2], [1,2], [2,1]} + delete) = 164): ALL sequences of <= 3 requests, each request handled by either
+// replica, every admitted object broadcast to both through the real NewQuotaInformer registration.  Same scheme as
+// TestVerifC15Exhaustive: one case = one committed prefix of admitted, state-changing requests followed by all 164
+// requests, each evaluated on the system rebuilt from the prefix (`try`).
+type c15RReq struct {
+	rep  int
+	kind string
+	sp   *c15Spec
+}
+
+func c15ReplicaAlphabet() []c15RReq {
+	var out []c15RReq
+	none := [c15Dims]int64{c15Absent, c15Absent, c15Absent}
+	for rep := 0; rep < 2; rep++ {
+		for _, n := range []int{3, 4} {
+			for _, ip := range []bool{false, true} {
+				for _, p := range []int{0, 7 - n} {
+					for _, ns := range [][]int{nil, {1}, {2}, {1, 2}, {2, 1}} {
+						sp := &c15Spec{name: n, parent: p, isParent: ip, ns: ns, mn: [c15Dims]int64{1000, c15Absent, c15Absent}, mx: [c15Dims]int64{8000, c15Absent, c15Absent}}
+						out = append(out, c15RReq{rep, "add", sp}, c15RReq{rep, "upd", sp})
+					}
+				}
+			}
+			out = append(out, c15RReq{rep, "del", &c15Spec{name: n, mn: none, mx: none}})
+		}
+	}
+	return out
+}
+
+func (rq c15RReq) line() string {
+	if rq.kind == "del" {
+		return fmt.Sprintf("del %d 0 0", rq.sp.name)
+	}
+	return c15OpLine(rq.kind, rq.sp, nil)
+}
+
+type c15Sys struct {
+	reps  [2]*c15Replica
+	api   map[int]*v1alpha1.ElasticQuota
+	store map[int]*c15Spec
+	rv    int
+}
+
+func c15NewSys(t *testing.T) *c15Sys {
+	sys := &c15Sys{api: map[int]*v1alpha1.ElasticQuota{}, store: map[int]*c15Spec{}}
+	for i := range sys.reps {
+		var err error
+		if sys.reps[i], err = c15NewReplica(1); err != nil {
+			t.Fatalf("replica wiring: %v", err)
+		}
+	}
+	return sys
+}
+
+func (sys *c15Sys) apply(h *vHarness, rq c15RReq) (ok, panicked bool, err error) {
+	qt := sys.reps[rq.rep].qt
+	name := rq.sp.name
+	old := sys.api[name]
+	obj := c15Object(rq.sp)
+	switch rq.kind {
+	case "add":
+		panicked = h.Guard(func() { err = qt.ValidAddQuota(obj) })
+	case "upd":
+		panicked = h.Guard(func() { err = qt.ValidUpdateQuota(old, obj) })
+	case "del":
+		if old != nil {
+			obj = old
+		}
+		panicked = h.Guard(func() { err = qt.ValidDeleteQuota(obj) })
+	}
+	ok = !panicked && err == nil
+	if ok && (rq.kind == "add" || old != nil) {
+		c15APIStore(sys.api, &sys.rv, rq.kind, name, obj)
+		for i := range sys.reps {
+			if sys.reps[i].event(h, rq.kind, old, obj, 0) {
+				ok, panicked = false, true
+			}
+		}
+		if rq.kind == "del" {
+			delete(sys.store, name)
+		} else {
+			sys.store[name] = rq.sp
+		}
+	}
+	return
+}
+
+func (sys *c15Sys) compact(ok bool) (string, [2]*c15Dump) {
+	parts := []string{fmt.Sprintf("res %d", vB(ok))}
+	var ds [2]*c15Dump
+	for i := range sys.reps {
+		ds[i] = c15Snapshot(sys.reps[i].qt)
+		parts = append(parts, fmt.Sprintf("rep%d", i))
+		parts = append(parts, ds[i].lines()...)
+	}
+	return strings.Join(parts, " | "), ds
+}
+
+func TestVerifC15ReplicasExhaustive(t *testing.T) {
+	h := vOpen("C15")
+	if h == nil {
+		t.Skip("VERIF_OUT not set")
+	}
+	alpha := c15ReplicaAlphabet()
+	A := len(alpha)
+	maxPrefix := vEnvInt("VERIF_C15_REXH_PREFIX", 2) // all sequences of <= 3 requests
+	rebuild := func(prefix []int) *c15Sys {
+		sys := c15NewSys(t)
+		for _, i := range prefix {
+			sys.apply(h, alpha[i])
+		}
+		return sys
+	}
+	index := func(prefix []int) int {
+		idx, base := 0, 1
+		for l := 0; l < len(prefix); l++ {
+			idx += base
+			base *= A
+		}
+		v := 0
+		for _, i := range prefix {
+			v = v*A + i
+		}
+		return idx + v
+	}
+	book := c15NewBook() // the alphabet has no bypass labels
+	var rec func(prefix []int)
+	rec = func(prefix []int) {
+		var children []int
+		emit := h.Begin(index(prefix)) != nil
+		sys := c15NewSys(t)
+		if emit {
+			h.Op("two")
+			h.Op("compact")
+		}
+		for _, i := range prefix {
+			ok, _, _ := sys.apply(h, alpha[i])
+			if emit {
+				h.Op("rep %d", alpha[i].rep)
+				h.Op("%s", alpha[i].line())
+				line, _ := sys.compact(ok)
+				h.Obs("%s", line)
+			}
+		}
+		baseLine, _ := sys.compact(true)
+		for i, rq := range alpha {
+			sys2 := rebuild(prefix)
+			ok, panicked, err := sys2.apply(h, rq)
+			line, ds := sys2.compact(ok)
+			changed := line != baseLine && strings.Replace(line, "res 0", "res 1", 1) != baseLine
+			if ok && changed && len(prefix) < maxPrefix {
+				children = append(children, i)
+			}
+			if !emit {
+				continue
+			}
+			h.Op("rep %d", rq.rep)
+			h.Op("try %s", rq.line())
+			if panicked {
+				h.Obs("panic")
+				h.Fail("C15:panic", "request %s on replica %d panicked after prefix %v", rq.line(), rq.rep, prefix)
+				continue
+			}
+			h.Obs("%s", line)
+			h.Tag(fmt.Sprintf("len%d:%s:%s", len(prefix)+1, rq.kind, c15ErrKind(err)))
+			if !ok {
+				if changed {
+					h.Fail("C15:reject-changed-state", "request %s was rejected but a replica's recorded topology changed", rq.line())
+				}
+				continue
+			}
+			for r := range ds {
+				if fp, what := c15WF(ds[r], sys2.store, true); fp != "" {
+					h.Fail(fp, "replica %d after prefix %v, request %s on replica %d: %s", r, prefix, rq.line(), rq.rep, what)
+				}
+			}
+			if fp, what := c15Judge(sys2.store, true, book); fp != "" {
+				h.Fail(fp, "after prefix %v, request %s was admitted by replica %d: %s", prefix, rq.line(), rq.rep, what)
+			}
+		}
+		if emit {
+			if len(prefix) >= 1 {
+				h.Nontrivial()
+			}
+			h.Tag(fmt.Sprintf("prefix-len:%d", len(prefix)))
+			h.End()
+		}
+		for _, i := range children {
+			rec(append(append([]int(nil), prefix...), i))
+		}
+	}
+	rec(nil)
+	h.Close(fmt.Sprintf("exhaustive two-replica stream: every sequence of <= %d requests over the 164-request alphabet (2 replicas x 2 names x {create,update} x 2 is-parent x "+
+		"2 parents x 5 namespace lists, + delete), every admitted object broadcast to both replicas; one case = committed prefix + all 164 next requests; non-trivial = non-empty prefix", maxPrefix+1))
 }
